@@ -118,66 +118,50 @@ func (i c12Info) ModTime() time.Time { return time.Time{} }
 func (i c12Info) IsDir() bool        { return false }
 func (i c12Info) Sys() interface{}   { return nil }
 
-func c12Ext4OverFat(fstype string, reserved uint16) {
+func c12Ext4OverFat(fstype string, reserved uint16, start int64) {
 	const size = 1 << 20
-	dev := &c12Flat{img: make([]byte, size)}
-	copy(dev.img, c12StaleFatSector(fstype, reserved, 1))
-	vp.Assume(dev.img[13] != 0) // the old volume was well-formed: sectors per cluster >= 1
+	dev := &c12Flat{img: make([]byte, start+size)}
+	copy(dev.img[start:], c12StaleFatSector(fstype, reserved, 1))
+	vp.Assume(dev.img[start+13] != 0) // the old volume was well-formed: sectors per cluster >= 1
 	uuid.SetRand(&c12Rand{})
 	vp.Unwind(5000)
-	fsys, err := ext4.Create(dev, size, 0, 512, &ext4.Params{SectorsPerBlock: 2, BlocksPerGroup: 256,
+	fsys, err := ext4.Create(dev, size, start, 512, &ext4.Params{SectorsPerBlock: 2, BlocksPerGroup: 256,
 		Features: []ext4.FeatureOpt{ext4.WithFeatureHasJournal(false), ext4.WithFeatureReservedGDTBlocksForExpansion(false)}})
 	vp.Assert(err == nil, "ext4.Create accepts the range")
 	vp.Assert(fsys.Type() == filesystem.TypeExt4, "an ext4 filesystem is created")
-	d := &Disk{Backend: dev, Size: size, LogicalBlocksize: 512, PhysicalBlocksize: 512, DefaultBlocks: true}
+	d := &Disk{Backend: dev, Size: start + size, LogicalBlocksize: 512, PhysicalBlocksize: 512, DefaultBlocks: true}
+	part := 0
+	if start != 0 {
+		// the range is partition 1 of an MBR table (the table itself lives in sector 0, outside the range)
+		d.Table = &mbr.Table{LogicalSectorSize: 512, PhysicalSectorSize: 512,
+			Partitions: []*mbr.Partition{{Index: 1, Type: mbr.Linux, Start: uint32(start / 512), Size: size / 512}}}
+		part = 1
+		for i := int64(0); i < 512; i++ {
+			vp.Assert(dev.img[i] == 0, "nothing is written in front of the range given to ext4.Create")
+		}
+	}
 	n := dev.writes
-	got, err := d.GetFilesystem(0)
+	got, err := d.GetFilesystem(part)
 	vp.Assert(dev.writes == n, "probing does not write")
 	vp.Cover("freshly opened disk probed")
+	if err != nil && !vp.Symbolic() {
+		println("GETFS ERROR:", err.Error())
+	}
 	vp.Assert(err == nil, "GetFilesystem finds a filesystem where ext4 was created")
-	stale := dev.img[510] == 0x55 && dev.img[511] == 0xaa // the old boot sector signature survived ext4.Create
-	vp.AssertUnless("KF-C12-2", stale, got.Type() == filesystem.TypeExt4, "a range on which ext4 was created is reported as ext4, not as the FAT volume it held before")
+	if err != nil {
+		return
+	}
+	vp.Assert(got.Type() == filesystem.TypeExt4, "a range on which ext4 was created is reported as ext4, not as the FAT volume it held before")
 }
 
 func VP_C12_ext4_over_stale_fat12() {
 	if vp.Thorough() {
-		c12Ext4OverFat("FAT12   ", 1)
+		c12Ext4OverFat("FAT12   ", 1, 0)
 	} else {
 		vp.Cover("thorough tier only")
 	}
 }
-func VP_C12_ext4_over_stale_fat16() { c12Ext4OverFat("FAT16   ", 4) }
+func VP_C12_ext4_over_stale_fat16() { c12Ext4OverFat("FAT16   ", 4, 0) }
 
-// VP_C12_scenario_ext4_mbrpart: ext4 created in an MBR partition, then a freshly opened disk:
-// table probe + GetFilesystem.
-func VP_C12_scenario_ext4_mbrpart() {
-	const (
-		start = 64 * 1024
-		size  = 1 << 20
-	)
-	dev := &c12Flat{img: make([]byte, start+size)}
-	uuid.SetRand(&c12Rand{})
-	vp.Unwind(70000)
-	d := &Disk{Backend: dev, Size: start + size, LogicalBlocksize: 512, PhysicalBlocksize: 512, DefaultBlocks: true}
-	err := d.Partition(&mbr.Table{LogicalSectorSize: 512, PhysicalSectorSize: 512, Partitions: []*mbr.Partition{
-		{Index: 1, Type: mbr.Linux, Start: start / 512, Size: size / 512},
-	}})
-	vp.Assert(err == nil, "the partition table is written")
-	// CreateFilesystem's default ext4 parameters (journal, 32768 blocks per group) need a bitmap the
-	// encoder cannot hold; the same call with small-volume parameters:
-	p, err := d.GetPartition(1)
-	vp.Assert(err == nil, "the partition is found")
-	fsys, err := ext4.Create(d.Backend, p.GetSize(), p.GetStart(), d.LogicalBlocksize, &ext4.Params{VolumeName: "EXTVOL", SectorsPerBlock: 2, BlocksPerGroup: 256,
-		Features: []ext4.FeatureOpt{ext4.WithFeatureHasJournal(false), ext4.WithFeatureReservedGDTBlocksForExpansion(false)}})
-	vp.Assert(err == nil, "ext4.Create accepts the partition")
-	vp.Assert(fsys.Type() == filesystem.TypeExt4, "an ext4 filesystem is created")
-	d2 := &Disk{Backend: dev, Size: start + size, LogicalBlocksize: 512, PhysicalBlocksize: 512, DefaultBlocks: true}
-	t2, err := d2.GetPartitionTable()
-	vp.Assert(err == nil, "the freshly opened disk has a partition table")
-	vp.Assert(t2.Type() == "mbr", "the table is reported as MBR")
-	got, err := d2.GetFilesystem(1)
-	vp.Cover("freshly opened disk probed")
-	vp.Assert(err == nil, "GetFilesystem finds a filesystem where ext4 was created")
-	vp.Assert(got.Type() == filesystem.TypeExt4, "GetFilesystem reports ext4")
-	vp.Assert(got.Label() == "EXTVOL", "the label survives")
-}
+// the same inside a partition (range at 1 MiB of a 2 MiB device)
+func VP_C12_ext4_over_stale_fat16_partition() { c12Ext4OverFat("FAT16   ", 4, 1<<20) }
